@@ -32,7 +32,10 @@ VALUE_CONSTS = {"VLanes": {"val"}, "Remotes": REMOTES}
 
 
 def open_ids(prop=None):
-    return {f["id"] for f in findings() if f["status"] == "open"}
+    """ids of the open findings of this component (VERIF_EJOIN_ASSUME_FIXED=id,id: treat these as repaired - used to try
+    a proposed repair on a scratch copy of the repository before the entry is marked fixed)"""
+    assume = set(x for x in os.environ.get("VERIF_EJOIN_ASSUME_FIXED", "").split(",") if x)
+    return {f["id"] for f in findings() if f["status"] == "open"} - assume
 
 
 def findings():
@@ -44,15 +47,16 @@ def findings():
 
 def map_consts(lanes):
     return {"MLanes": set(lanes), "Remotes": REMOTES, "Keys": set(KEYS),
-            "EnabledFindings": {f["id"] for f in core.known_findings() + findings() if f["status"] == "open" and f["id"] in ("F5", "F12", "EJOIN-F1")}}
+            "EnabledFindings": {f["id"] for f in core.known_findings() if f["status"] == "open" and f["id"] in ("F5", "F12")}}
 
 
 def hosted_consts(retries):
     return {"Keys": set(KEYS), "Retries": retries, "EnabledFindings": {x for x in open_ids() if x.startswith("EJOIN-H")}}
 
 
-def join_consts():
-    return {"Keys": set(KEYS), "Links": {1, 2}, "EnabledFindings": {x for x in open_ids() if x.startswith("EJOIN-F")}}
+def join_consts(retries=2, enabled=None):
+    return {"Keys": set(KEYS), "Links": {1, 2}, "Retries": retries,
+            "EnabledFindings": enabled if enabled is not None else {x for x in open_ids() if x.startswith("EJOIN-F")}}
 
 
 # ----------------------------------------------------------------------------- scripts
@@ -235,3 +239,428 @@ def proj_hosted(log):
             elif k == "quiescent":
                 out.append({"e": "quiescent"})
     return out
+
+
+def join_ids(seg):
+    return sorted({e["id"] for e in seg if e["e"] == "jadd"})
+
+
+def proj_join(log):
+    """events of Trace_JoinLane.tla (the downlinks of the join lanes)"""
+    out = []
+    for seg in segments(log):
+        ids = set(join_ids(seg))
+        out.append({"e": "reset", "ids": sorted(ids)})
+        for e in seg:
+            k = e["e"]
+            if k == "jadd":
+                out.append({"e": "jadd", "lane": e["lane"], "key": e["key"], "id": e["id"], "resp": e["resp"]})
+            elif k == "jrem":
+                out.append({"e": "jrem", "lane": e["lane"], "key": e["key"], "before": mapseq(e["before"]), "after": mapseq(e["after"])})
+            elif k == "jget":
+                out.append({"e": "jget", "lane": e["lane"], "map": mapseq(e["map"])})
+            elif k == "dlreq" and e["id"] in ids:
+                out.append({"e": "dlreq", "id": e["id"], "gen": e["gen"]})
+            elif k == "dlans" and e["id"] in ids:
+                if e.get("taken", True):
+                    out.append({"e": "dlans", "id": e["id"], "gen": e["gen"], "how": e["how"]})
+            elif k == "dlin" and e["id"] in ids:
+                if e.get("undelivered") == "blocked":
+                    raise core.ToolError("a notification could not be written to a downlink's input channel (harness)")
+                if "undelivered" in e:
+                    continue
+                o = {"e": "dlin", "id": e["id"], "do": e["do"]}
+                if e["do"] == "event":
+                    if "m" in e:
+                        o["m"] = e["m"]
+                        o["k"] = e.get("key", 0)
+                        o["v"] = e.get("v", 0)
+                        o["n"] = e.get("n", 0)
+                    else:
+                        o["v"] = e["v"]
+                out.append(o)
+            elif k == "jcb":
+                o = {"e": "jcb", "lane": e["lane"], "cb": e["cb"], "key": e["key"], "id": e["id"]}
+                if "v" in e:
+                    o["v"] = nz(e["v"])
+                if "keys" in e:
+                    o["keys"] = list(e["keys"])
+                if "resp" in e:
+                    o["resp"] = e["resp"]
+                out.append(o)
+            elif k == "lane" and e["lane"] in JLANES:
+                o = {"e": "jop", "lane": e["lane"], "m": e["op"], "k": e["k"], "prev": nz(e.get("prev")), "map": mapseq(e["map"])}
+                if "v" in e:
+                    o["v"] = e["v"]
+                out.append(o)
+            elif k == "lane" or k in AGENT_SIDE or k in ("dlcb", "dlset", "dlmop", "dlclose"):
+                out.append({"e": "other"})
+            elif k in ("stopping", "stop"):
+                out.append({"e": "stopping"})
+            elif k == "quiescent":
+                out.append({"e": "quiescent"})
+    return out
+
+
+def f1_open():
+    return "EJOIN-F1" in open_ids()
+
+
+def lane_changes(log):
+    """the log with the join lanes' own state changes made explicit: every entry that carries a snapshot of a join lane's
+    map (the lane's on_update / on_remove events, jrem) is followed by the changes of single entries that lead from the
+    previous snapshot to it: {"e": "jchg", "lane", "op": upd | rem, "k", "v"} (pure function of the logged snapshots)"""
+    cur = {l: {} for l in JLANES}
+    out = []
+    for e in log:
+        out.append(e)
+        k = e["e"]
+        if k == "start":
+            cur = {l: {} for l in JLANES}
+        elif k == "lane" and e["lane"] in JLANES:
+            lane = e["lane"]
+            new = dict((a, b) for a, b in e["map"])
+            own = e["k"] if e["op"] == "upd" else None
+            for kk in sorted(cur[lane]):
+                if kk not in new:
+                    out.append({"e": "jchg", "lane": lane, "op": "rem", "k": kk})
+            for kk in sorted(new):
+                if kk == own or cur[lane].get(kk) != new[kk]:
+                    out.append({"e": "jchg", "lane": lane, "op": "upd", "k": kk, "v": new[kk]})
+            cur[lane] = new
+        elif k == "jrem":
+            lane = e["lane"]
+            new = dict((a, b) for a, b in e["after"])
+            before = dict((a, b) for a, b in e["before"])
+            for kk in sorted(before):
+                if kk not in new and kk in cur[lane]:
+                    out.append({"e": "jchg", "lane": lane, "op": "rem", "k": kk, "jrem": True})
+            cur[lane] = new
+    return out
+
+
+def proj_map_join(log, lanes=JLANES, defer_f1=None):
+    """events of Trace_MapReplica.tla for the join lanes (remotes that link to / sync with `jv` / `jm`).
+    While finding EJOIN-F1 is open: a removal by remove_downlink is not written before the lane is next marked as
+    changed (by a later change or a sync request); the removal is then projected where it becomes visible - before the
+    lane's next own event or the first frame that carries it - instead of where the lane performed it, so that
+    Trace_MapReplica judges everything else (Trace_JoinLane reports the finding itself)."""
+    defer_f1 = f1_open() if defer_f1 is None else defer_f1
+    out = [{"e": "reset"}]
+    first = True
+    pending = {l: [] for l in lanes}        # removals by remove_downlink not yet projected
+    for e in lane_changes(log):
+        k = e["e"]
+        if k == "start":
+            if not first:
+                out.append({"e": "init", "maps": {l: [-1 for _ in KEYS] for l in lanes}})
+            first = False
+            pending = {l: [] for l in lanes}
+        elif k == "lane" and e["lane"] in lanes:
+            for kk in pending[e["lane"]]:
+                out.append({"e": "op", "lane": e["lane"], "m": "rem", "k": kk})
+            pending[e["lane"]] = []
+        elif k == "jchg" and e["lane"] in lanes:
+            if e["k"] not in KEYS:
+                continue
+            if e.get("jrem") and defer_f1:
+                pending[e["lane"]].append(e["k"])
+                continue
+            if e["k"] in pending[e["lane"]]:
+                pending[e["lane"]].remove(e["k"])
+                out.append({"e": "op", "lane": e["lane"], "m": "rem", "k": e["k"]})
+            o = {"e": "op", "lane": e["lane"], "m": e["op"], "k": e["k"]}
+            if e["op"] == "upd":
+                o["v"] = e["v"]
+            out.append(o)
+        elif k == "req" and e["lane"] in lanes and e["op"] in ("link", "sync", "unlink"):
+            out.append({"e": "req", "r": e["r"], "lane": e["lane"], "op": e["op"]})
+        elif k == "req":
+            out.append({"e": "mark"})
+        elif k == "frame" and e["lane"] in lanes:
+            f = {"e": "frame", "r": e["r"], "lane": e["lane"], "kind": e["kind"]}
+            if e["kind"] == "event":
+                op = e2e.parse_map_op(e.get("body"))
+                if op is None:
+                    f["bad"] = True
+                    f["m"] = "bad"
+                else:
+                    f["m"] = op["op"]
+                    if "k" in op:
+                        f["k"] = op["k"]
+                    if "v" in op:
+                        f["v"] = op["v"]
+                    if op["op"] == "rem" and op["k"] in pending[e["lane"]]:
+                        pending[e["lane"]].remove(op["k"])
+                        out.append({"e": "op", "lane": e["lane"], "m": "rem", "k": op["k"]})
+            out.append(f)
+        elif k in ("drop", "dropread", "eof", "frame_error"):
+            out.append({"e": "gone", "r": e["r"]})
+        elif k in ("stopping", "stop"):
+            out.append({"e": "stopping"})
+        elif k == "quiescent":
+            out.append({"e": "quiescent", "drained": e["drained"]})
+    return out
+
+
+def proj_link(log):
+    """events of Trace_LinkProtocol.tla: what the join lanes change is what they `produce` (byte for byte the bodies of
+    their event frames); everything else as e2e.proj_link"""
+    log2 = []
+    for e in lane_changes(log):
+        if e["e"] == "jchg":
+            body = "@update(key:%d) %d" % (e["k"], e["v"]) if e["op"] == "upd" else "@remove(key:%d)" % e["k"]
+            log2.append({"e": "supply", "lane": e["lane"], "v": body})
+        elif e["e"] == "lane" and e["lane"] in JLANES:
+            continue
+        else:
+            log2.append(e)
+    return e2e.proj_link(log2)
+
+
+def proj_map_hosted(log):
+    """events of Trace_MapReplica.tla for the lane `map` in the hosted-downlink scripts.  The handlers of the map downlink
+    change `map` whenever the agent takes a notification, so the lane operations that follow a take / drop command
+    cannot be attributed to it: take / drop commands are projected as plain requests (their own semantics is C02's)."""
+    return [{"e": "mark"} if e["e"] == "td" else e for e in e2e.proj_map(log, ["map"], KEYS)]
+
+
+# ----------------------------------------------------------------------------- directed scripts
+
+def dl(id, do, ns=False, **kw):
+    d = {"k": "dl", "id": id, "do": do, "nosettle": ns}
+    d.update(kw)
+    return d
+
+
+def send(r, lane, op, ns=False):
+    return {"k": "send", "r": r, "lane": lane, "op": op, "nosettle": ns}
+
+
+def anchors_join():
+    """Directed behaviours of AgentEnv.tla ("join") around the shapes the random scripts reach rarely: a link removed
+    while a remote is linked to the lane (EJOIN-F1), removed with a lifecycle that retries (EJOIN-F2), an entry of the
+    join map lane updated twice by its owner and then cleared / deleted (EJOIN-F3); a refused, a fatally refused and a
+    delayed opening; links closed with every answer of the lifecycle."""
+    att = {"k": "attach", "r": 1, "cap": 4096}
+    q = {"k": "quiesce"}
+    out = []
+    for resp in ("retry", "abandon", "delete"):
+        out.append([att, send(1, "jv", "sync"), prog(1, "jadd jv 1 /d1 %s; jadd jv 2 /d2 %s" % (resp, resp)), dl(1, "linked"), dl(1, "event", v=5), dl(1, "synced"),
+                    dl(2, "event", v=8), dl(2, "linked"), q, dl(1, "unlinked"), dl(2, "close"), q, dl(2, "linked"), dl(2, "event", v=11), dl(1, "event", v=12), q,
+                    prog(1, "jrem jv 2"), q, dl(2, "event", v=13), dl(2, "linked"), q, prog(1, "jadd jv 3 /d20 %s" % resp), dl(20, "event", v=14), q])
+        out.append([att, send(1, "jm", "sync"), prog(1, "jmadd jm 1 /d1 %s; jmadd jm 2 /d2 %s" % (resp, resp)), dl(1, "linked"), dl(1, "event", m="upd", key=1, v=5),
+                    dl(1, "event", m="upd", key=1, v=6), dl(1, "event", m="upd", key=2, v=7), dl(1, "synced"), dl(2, "linked"), dl(2, "event", m="upd", key=3, v=8), q,
+                    dl(1, "event", m="clr"), q, dl(2, "event", m="upd", key=2, v=9), dl(1, "fail"), q, prog(1, "jmrem jm 2"), q, dl(2, "linked"),
+                    dl(2, "event", m="upd", key=3, v=10), q])
+    # opening refused (recoverably, then for good), refused fatally, delayed
+    out.append([att, {"k": "dlopen", "id": 0, "how": "refuse"}, prog(1, "jadd jv 1 /d1 abandon"), q, {"k": "dlopen", "id": 0, "how": "ok"},
+                prog(1, "jadd jv 1 /d2 abandon; jadd jv 2 /d3 delete"), dl(3, "linked"), dl(3, "event", v=4), q])
+    out.append([att, {"k": "dlopen", "id": 0, "how": "fatal"}, prog(1, "jmadd jm 1 /d1 abandon"), q, {"k": "dlopen", "id": 0, "how": "delay"},
+                prog(1, "jadd jv 2 /d3 delete"), q, prog(1, "jrem jv 2"), {"k": "dlopen", "id": 3, "how": "ok"}, dl(3, "linked"), q])
+    return out
+
+
+def anchors_hosted():
+    """Directed behaviours ("hosted"): a kept downlink that loses its channel (closed, broken frame, failed write) and is
+    reopened, with the reopening refused until the retries are used up; values set before the downlink is open; a
+    downlink stopped while notifications are queued; map operations written and coalesced."""
+    att = {"k": "attach", "r": 1, "cap": 4096}
+    q = {"k": "quiesce"}
+    out = []
+    for flags in (2, 3):
+        out.append([att, send(1, "val", "sync"), prog(1, "dlv /d1 %d; dlset 3" % flags), dl(1, "linked"), dl(1, "event", v=5), dl(1, "synced"), dl(1, "event", v=6), q,
+                    dl(1, "close"), q, dl(1, "linked"), dl(1, "synced"), dl(1, "event", v=7), dl(1, "fail"), q, {"k": "dlopen", "id": 1, "how": "refuse"}, dl(1, "close"), q])
+        out.append([att, send(1, "map", "sync"), prog(1, "dlm /d1 %d; dlmu 1 3; dlmu 1 4; dlmr 2" % flags), dl(1, "linked"), dl(1, "event", m="upd", key=1, v=5),
+                    dl(1, "event", m="upd", key=2, v=6), dl(1, "synced"), dl(1, "event", m="take", n=1), dl(1, "event", m="upd", key=3, v=7), dl(1, "event", m="drop", n=1), q,
+                    dl(1, "outfail"), prog(1, "dlmu 2 8"), q, dl(1, "linked"), dl(1, "event", m="clr"), q])
+    out.append([att, {"k": "dlopen", "id": 0, "how": "delay"}, prog(1, "dlv /d1 1; dlset 3; dlset 4"), q, {"k": "dlopen", "id": 1, "how": "ok"}, dl(1, "linked", ns=True),
+                dl(1, "event", ns=True, v=5), dl(1, "event", ns=True, v=6), prog(1, "dlclose v"), q])
+    out.append([att, prog(1, "dlv /d1 0; dlm /d2 1"), dl(1, "linked", ns=True), dl(2, "linked", ns=True), dl(1, "synced", ns=True), dl(2, "event", ns=True, m="upd", key=1, v=3),
+                dl(1, "event", ns=True, v=4), dl(2, "event", ns=True, m="rem", key=1), dl(1, "event", ns=True, v=5), prog(1, "set val 6; upd map 1 7"), q,
+                dl(1, "unlinked"), dl(2, "unlinked"), q])
+    return out
+
+
+# ----------------------------------------------------------------------------- validation
+
+class Tagging:
+    """An Outcome seen by e2e.validate_cases: replay files of this component are marked so that the check that called
+    run_e can route `--replay` to e_join.replay"""
+
+    def __init__(self, out):
+        self._out, self.raised = out, 0
+
+    def __getattr__(self, name):
+        return getattr(self._out, name)
+
+    def violation(self, what, obj):
+        self.raised += 1
+        obj = dict(obj)
+        obj["component"] = "e_join"
+        return self._out.violation(what, obj)
+
+
+def kf_handler(out):
+    def h(k):
+        hit = [f for f in core.known_findings() if f["id"] == k and f["status"] == "open"]
+        out.known_finding("%s %s" % (k, hit[0]["what"] if hit else "(deviation action taken)"))
+    return h
+
+
+def vacuity(results):
+    """what the recorded executions contain (so that an empty check is visible in the evidence)"""
+    c = {}
+
+    def inc(k, n=1):
+        c[k] = c.get(k, 0) + n
+    for r in results:
+        for e in r["log"]:
+            k = e["e"]
+            if k in ("dlcb", "jcb"):
+                if e.get("ph", "b") == "b":
+                    inc("%s_%s%s" % (k, e.get("lane", "") + "_" if "lane" in e else "", e["cb"]))
+            elif k == "dlin":
+                inc("dlin_%s%s" % (e["do"], "_undelivered" if "undelivered" in e else ""))
+            elif k == "dlans":
+                inc("dlans_%s" % e["how"])
+            elif k == "dlreq":
+                inc("dlreq" if e["gen"] == 1 else "dlreq_again")
+            elif k in ("jadd", "jrem", "jget", "dlopen", "dlset", "dlmop", "dlclose", "dlout"):
+                inc(k)
+            elif k == "lane" and e["lane"] in JLANES:
+                inc("lane_%s_%s" % (e["lane"], e["op"]))
+            elif k == "frame" and e["lane"] in JLANES:
+                inc("frame_%s_%s" % (e["lane"], e["kind"]))
+    return c
+
+
+def run_group(wd, scripts, cfg, tag):
+    cases, results = e2e.run_scripts(wd, scripts, cfg, tag=tag, final=("quiesce", "stop"))
+    return cases, results
+
+
+def run_e(tier, out, wd, prop="C08"):
+    os.makedirs(wd, exist_ok=True)
+    core.build_harness("h_runtime", "e2e")
+    q = tier == "quick"
+    m = 1 if q else 10
+    seed = core.seed()
+    stats = {}
+    total_rejected = 0
+    # ---- join lanes
+    jprofiles = [
+        (dict(n=40 * m, maxlen=26, nremotes=2, caps=(64, 4096), vlanes=[], mlanes=[], keys=KEYS, faults=("join",), burst=True), {"dl_retries": 2}),
+        (dict(n=20 * m, maxlen=30, nremotes=2, caps=(24, 4096), vlanes=[], mlanes=[], keys=KEYS, faults=("join", "drop"), burst=False), {}),
+    ]
+    jall = []
+    for pi, (p, cfg) in enumerate(jprofiles):
+        scripts, r = generate(wd, "envJ%d" % pi, seed + 80 + pi, True, **p)
+        if pi == 1:
+            scripts = scripts + [wrap(s, True) for s in anchors_join()]
+        c = {"store": False}
+        c.update(cfg)
+        cases, results = run_group(wd, scripts, c, "runJ%d" % pi)
+        out.add(states=r.generated, transitions=r.generated)
+        retries = cfg.get("dl_retries", 0)
+        px = Tagging(out)
+        acc, rej, nev = e2e.validate_cases(px, prop, "Trace_JoinLane", cases, results, proj_join, join_consts(retries), wd,
+                                           "join lanes", tag="tvJ%d" % pi, kf_handler=kf_handler(out))
+        acc2, rej2, nev2 = e2e.validate_cases(px, prop, "Trace_MapReplica", cases, results, proj_map_join, map_consts(JLANES), wd,
+                                              "replicas of the join lanes", tag="tvJM%d" % pi, kf_handler=kf_handler(out))
+        acc3, rej3, nev3 = e2e.validate_cases(px, prop, "Trace_LinkProtocol", cases, results, proj_link, LINK_CONSTS, wd,
+                                              "link protocol on the join lanes", tag="tvJL%d" % pi)
+        core.log("[%s] e_join join %d: %d scripts; Trace_JoinLane %d events accepted=%d; Trace_MapReplica %d events accepted=%d; Trace_LinkProtocol %d events accepted=%d; rejected=%d" % (
+            prop, pi, len(cases), nev, acc, nev2, acc2, nev3, acc3, px.raised))
+        stats["join%d" % pi] = {"scripts": len(cases), "events_Trace_JoinLane": nev, "events_Trace_MapReplica": nev2, "events_Trace_LinkProtocol": nev3, "rejected": px.raised}
+        total_rejected += px.raised
+        jall += results
+        if pi == 0 and cases:
+            out.sample({"e_join_script": cases[0]["acts"][:10],
+                        "e_join_log_excerpt": [e for e in results[0]["log"] if e["e"] in ("jadd", "jrem", "jcb", "dlreq", "dlin", "jget") or (e["e"] == "lane" and e["lane"] in JLANES)][:12]})
+    # ---- hosted value / map downlinks
+    hprofiles = [
+        (dict(n=40 * m, maxlen=28, nremotes=2, caps=(64, 4096), vlanes=["val"], mlanes=["map"], keys=KEYS, faults=("hosted",), burst=True), {"dl_retries": 2, "dl_out_cap": 16}),
+        (dict(n=20 * m, maxlen=28, nremotes=2, caps=(4096,), vlanes=["val"], mlanes=["map"], keys=KEYS, faults=("hosted", "restart", "kill"), burst=True), {"store": True}),
+    ]
+    hall = []
+    for pi, (p, cfg) in enumerate(hprofiles):
+        scripts, r = generate(wd, "envH%d" % pi, seed + 90 + pi, False, **p)
+        if pi == 1:
+            scripts = scripts + [wrap(s, False) for s in anchors_hosted()]
+        c = {"store": False}
+        c.update(cfg)
+        cases, results = run_group(wd, scripts, c, "runH%d" % pi)
+        out.add(states=r.generated, transitions=r.generated)
+        retries = cfg.get("dl_retries", 0)
+        px = Tagging(out)
+        acc, rej, nev = e2e.validate_cases(px, prop, "Trace_HostedDownlink", cases, results, proj_hosted, hosted_consts(retries), wd,
+                                           "hosted downlinks", tag="tvH%d" % pi, kf_handler=kf_handler(out))
+        acc2, rej2, nev2 = e2e.validate_cases(px, prop, "Trace_ValueView", cases, results, lambda log: e2e.proj_value(log, ["val"]), VALUE_CONSTS, wd,
+                                              "value lane set by the downlink's handlers", tag="tvHV%d" % pi)
+        acc3, rej3, nev3 = e2e.validate_cases(px, prop, "Trace_MapReplica", cases, results, proj_map_hosted, map_consts(["map"]), wd,
+                                              "map lane updated by the downlink's handlers", tag="tvHM%d" % pi, kf_handler=kf_handler(out))
+        acc4, rej4, nev4 = e2e.validate_cases(px, prop, "Trace_LinkProtocol", cases, results, proj_link, LINK_CONSTS, wd,
+                                              "link protocol (hosted downlink scripts)", tag="tvHL%d" % pi)
+        core.log("[%s] e_join hosted %d: %d scripts; Trace_HostedDownlink %d events accepted=%d; Trace_ValueView %d accepted=%d; Trace_MapReplica %d accepted=%d; Trace_LinkProtocol %d accepted=%d; rejected=%d" % (
+            prop, pi, len(cases), nev, acc, nev2, acc2, nev3, acc3, nev4, acc4, px.raised))
+        stats["hosted%d" % pi] = {"scripts": len(cases), "events_Trace_HostedDownlink": nev, "events_Trace_ValueView": nev2, "events_Trace_MapReplica": nev3,
+                                  "events_Trace_LinkProtocol": nev4, "rejected": px.raised}
+        total_rejected += px.raised
+        hall += results
+        if pi == 0 and cases:
+            out.sample({"e_join_hosted_log_excerpt": [e for e in results[0]["log"] if e["e"] in ("dlopen", "dlreq", "dlans", "dlin", "dlcb", "dlset", "dlout", "dlclose")][:14]})
+    vac = vacuity(jall + hall)
+    stats["observed"] = vac
+    stats["enabled_findings"] = sorted(open_ids())
+    out.add(e_join=stats)
+    n_scripts = sum(v["scripts"] for k, v in stats.items() if isinstance(v, dict) and "scripts" in v)
+    n_events = sum(v2 for k, v in stats.items() if isinstance(v, dict) for k2, v2 in v.items() if k2.startswith("events_"))
+    out.add(traces_validated_against_impl=n_scripts, trace_events_validated=n_events)
+    out.assumptions += ["e_join: the harness plays the downlink runtime and the remote lanes of the agent's downlinks (byte channels with the downlink protocol); "
+                        "a notification counts as delivered when the write to the downlink's input channel succeeded; callbacks log inside the handlers"]
+    return vac
+
+
+# ----------------------------------------------------------------------------- replay
+
+MODULES = {
+    "Trace_JoinLane": (proj_join, lambda cfg: join_consts(cfg.get("dl_retries", 0))),
+    "Trace_HostedDownlink": (proj_hosted, lambda cfg: hosted_consts(cfg.get("dl_retries", 0))),
+    "Trace_LinkProtocol": (proj_link, lambda cfg: LINK_CONSTS),
+    "Trace_ValueView": (lambda log: e2e.proj_value(log, ["val"]), lambda cfg: VALUE_CONSTS),
+}
+
+
+def replay(path, out):
+    whole = json.load(open(path))
+    obj = whole["replay"]
+    prop = whole.get("property", "C08")
+    wd = core.workdir("EJOIN_replay")
+    case = obj["case"]
+    module = obj.get("module", "Trace_JoinLane")
+    cases, results = e2e.run_scripts(wd, [case["acts"]], case.get("cfg", {}), tag="replay", final=(), vary=False)
+    log = results[0]["log"]
+    for e in log:
+        print(json.dumps(e))
+    if results[0].get("panic") or any(e["e"] in ("agent_panic", "hang") for e in log):
+        print("the code under test panicked or hung")
+        print("VIOLATION property=%s replay=%s" % (prop, path))
+        return 1
+    if module == "Trace_MapReplica":
+        lanes = sorted(obj.get("constants", {}).get("MLanes", JLANES))
+        proj = (lambda l: proj_map_join(l)) if set(lanes) <= set(JLANES) else proj_map_hosted
+        consts = map_consts(lanes)
+    else:
+        proj, cf = MODULES[module]
+        consts = cf(case.get("cfg", {}))
+    ev = proj(log)
+    res = e2e.validate(module, ev, os.path.join(wd, "tv"), consts)
+    print(json.dumps({k: v for k, v in res.items() if k != "counterexample"}))
+    if not res["accepted"]:
+        print("rejected at", ev[res["matched"]] if 0 <= res["matched"] < len(ev) else None)
+        print("VIOLATION property=%s replay=%s" % (prop, path))
+        return 1
+    for k in res.get("kf") or []:
+        print("KNOWN-FINDING: property=%s %s" % (prop, k))
+    return 0
